@@ -407,6 +407,12 @@ class Checker:
             return None
         g = node.args[0]
         if len(g.generators) != 1:
+            ifs = [i for gg in g.generators for i in gg.ifs]
+            bound = {norm(gg.target) for gg in g.generators}
+            if len(ifs) == 1 and norm(g.elt) in bound:
+                return ifs[0], g.generators[0].iter
+            if not ifs:
+                return g.elt, g.generators[0].iter
             return None
         gen = g.generators[0]
         if gen.ifs:
